@@ -96,7 +96,7 @@ func loadVariants(verif string) ([]Variant, error) {
 	return out, nil
 }
 
-var allProps = []string{"C01", "C02", "C03", "C04", "C05", "C06", "C07", "C08", "C09", "C10", "C12", "C13", "C14", "C15", "C16", "C17"}
+var allProps = []string{"C01", "C02", "C03", "C04", "C05", "C06", "C07", "C08", "C09", "C10", "C11", "C12", "C13", "C14", "C15", "C16", "C17"}
 
 // patchOverlay applies a unified diff to scratch copies of the files it names.
 func patchOverlay(repo, patch string) (map[string]string, bool) {
